@@ -202,15 +202,23 @@ func (p *c04Proc) run(c *c04Case, timeout time.Duration) (c04Result, bool) {
 			// ask the Go runtime of the worker for a goroutine dump before killing it
 			frame, stack := "?", ""
 			if p.cmd.Process != nil {
-				_ = p.cmd.Process.Signal(syscall.SIGQUIT)
-				select {
-				case <-p.done:
-				case <-time.After(8 * time.Second):
+				// SIGUSR1: the worker stops the world and prints every goroutine (a SIGQUIT dump says
+				// "stack unavailable" for a goroutine that is running on another thread); SIGQUIT is
+				// the fallback for a worker that no longer schedules its signal goroutine
+				for _, sig := range []syscall.Signal{syscall.SIGUSR1, syscall.SIGQUIT} {
+					_ = p.cmd.Process.Signal(sig)
+					select {
+					case <-p.done:
+					case <-time.After(8 * time.Second):
+					}
+					p.errMu.Lock()
+					se := p.stderr.String()
+					p.errMu.Unlock()
+					frame, stack = c04HangFrame(se)
+					if frame != "?" {
+						break
+					}
 				}
-				p.errMu.Lock()
-				se := p.stderr.String()
-				p.errMu.Unlock()
-				frame, stack = c04HangFrame(se)
 			}
 			p.kill()
 			return c04Result{ID: c.ID, Outcome: "timeout", Stage: lastOp, Frame: frame, Msg: "no result within the watchdog time", Raw: fmt.Sprintf("watchdog %s", timeout), Stack: stack}, false
